@@ -10,27 +10,153 @@ import SalsaVerif.Model.CoreSpec
 namespace SalsaVerif.Proofs.CoreSpec
 open SalsaVerif.Model.CoreSpec
 
-structure PrimRel (R : State → State → Prop) : Prop where
+theorem fail_cases (s p) : fail s p = s ∨ fail s p = { s with panic := some p } := by
+  unfold Model.CoreSpec.fail
+  split
+  · exact Or.inl rfl
+  · exact Or.inr rfl
+
+/-! ### projections of the primitive updates -/
+
+@[simp] theorem setSMemo_same (s c m) : (setSMemo s c m).smemos c = m := by simp [setSMemo]
+theorem setSMemo_other (s c m) {c'} (h : c' ≠ c) : (setSMemo s c m).smemos c' = s.smemos c' := by
+  simp [setSMemo, h]
+@[simp] theorem setSMemo_cur (s c m) : (setSMemo s c m).cur = s.cur := rfl
+@[simp] theorem setSMemo_lch (s c m) : (setSMemo s c m).lch = s.lch := rfl
+@[simp] theorem setSMemo_trace (s c m) : (setSMemo s c m).trace = s.trace := rfl
+@[simp] theorem setSMemo_slots (s c m) : (setSMemo s c m).slots = s.slots := rfl
+@[simp] theorem setSMemo_memos (s c m) : (setSMemo s c m).memos = s.memos := rfl
+@[simp] theorem setSMemo_panic (s c m) : (setSMemo s c m).panic = s.panic := rfl
+@[simp] theorem setSMemo_inp (s c m) : (setSMemo s c m).inp = s.inp := rfl
+
+@[simp] theorem setSlot_same (s c sl) : (setSlot s c sl).slots c = sl := by simp [setSlot]
+theorem setSlot_other (s c sl) {c'} (h : c' ≠ c) : (setSlot s c sl).slots c' = s.slots c' := by
+  simp [setSlot, h]
+@[simp] theorem setSlot_cur (s c sl) : (setSlot s c sl).cur = s.cur := rfl
+@[simp] theorem setSlot_lch (s c sl) : (setSlot s c sl).lch = s.lch := rfl
+@[simp] theorem setSlot_trace (s c sl) : (setSlot s c sl).trace = s.trace := rfl
+@[simp] theorem setSlot_smemos (s c sl) : (setSlot s c sl).smemos = s.smemos := rfl
+@[simp] theorem setSlot_memos (s c sl) : (setSlot s c sl).memos = s.memos := rfl
+@[simp] theorem setSlot_panic (s c sl) : (setSlot s c sl).panic = s.panic := rfl
+@[simp] theorem setSlot_inp (s c sl) : (setSlot s c sl).inp = s.inp := rfl
+
+@[simp] theorem setMemo_same (s q m) : (setMemo s q m).memos q = some m := by simp [setMemo]
+theorem setMemo_other (s q m) {p} (h : p ≠ q) : (setMemo s q m).memos p = s.memos p := by simp [setMemo, h]
+@[simp] theorem setMemo_cur (s q m) : (setMemo s q m).cur = s.cur := rfl
+@[simp] theorem setMemo_lch (s q m) : (setMemo s q m).lch = s.lch := rfl
+@[simp] theorem setMemo_trace (s q m) : (setMemo s q m).trace = s.trace := rfl
+@[simp] theorem setMemo_smemos (s q m) : (setMemo s q m).smemos = s.smemos := rfl
+@[simp] theorem setMemo_slots (s q m) : (setMemo s q m).slots = s.slots := rfl
+@[simp] theorem setMemo_panic (s q m) : (setMemo s q m).panic = s.panic := rfl
+@[simp] theorem setMemo_inp (s q m) : (setMemo s q m).inp = s.inp := rfl
+
+@[simp] theorem emit_cur (s e) : (emit s e).cur = s.cur := rfl
+@[simp] theorem emit_lch (s e) : (emit s e).lch = s.lch := rfl
+@[simp] theorem emit_trace (s e) : (emit s e).trace = s.trace ++ [e] := rfl
+@[simp] theorem emit_smemos (s e) : (emit s e).smemos = s.smemos := rfl
+@[simp] theorem emit_slots (s e) : (emit s e).slots = s.slots := rfl
+@[simp] theorem emit_memos (s e) : (emit s e).memos = s.memos := rfl
+@[simp] theorem emit_panic (s e) : (emit s e).panic = s.panic := rfl
+@[simp] theorem emit_inp (s e) : (emit s e).inp = s.inp := rfl
+@[simp] theorem emit_lc (s e d) : lc (emit s e) d = lc s d := rfl
+
+@[simp] theorem fail_cur (s p) : (fail s p).cur = s.cur := by rcases fail_cases s p with e | e <;> rw [e]
+@[simp] theorem fail_lch (s p) : (fail s p).lch = s.lch := by rcases fail_cases s p with e | e <;> rw [e]
+@[simp] theorem fail_trace (s p) : (fail s p).trace = s.trace := by rcases fail_cases s p with e | e <;> rw [e]
+@[simp] theorem fail_smemos (s p) : (fail s p).smemos = s.smemos := by rcases fail_cases s p with e | e <;> rw [e]
+@[simp] theorem fail_slots (s p) : (fail s p).slots = s.slots := by rcases fail_cases s p with e | e <;> rw [e]
+@[simp] theorem fail_memos (s p) : (fail s p).memos = s.memos := by rcases fail_cases s p with e | e <;> rw [e]
+@[simp] theorem fail_inp (s p) : (fail s p).inp = s.inp := by rcases fail_cases s p with e | e <;> rw [e]
+@[simp] theorem fail_lc (s p d) : lc (fail s p) d = lc s d := by simp [lc]
+
+theorem fail_panic_none {s p} (h : s.panic = none) : (fail s p).panic = some p := by
+  unfold Model.CoreSpec.fail; rw [h]
+
+theorem failIf_cases (s b p) : failIf s b p = s ∨ failIf s b p = fail s p := by
+  unfold Model.CoreSpec.failIf; split
+  · exact Or.inr rfl
+  · exact Or.inl rfl
+
+@[simp] theorem failIf_cur (s b p) : (failIf s b p).cur = s.cur := by
+  rcases failIf_cases s b p with e | e <;> rw [e]; simp
+@[simp] theorem failIf_lch (s b p) : (failIf s b p).lch = s.lch := by
+  rcases failIf_cases s b p with e | e <;> rw [e]; simp
+@[simp] theorem failIf_trace (s b p) : (failIf s b p).trace = s.trace := by
+  rcases failIf_cases s b p with e | e <;> rw [e]; simp
+@[simp] theorem failIf_smemos (s b p) : (failIf s b p).smemos = s.smemos := by
+  rcases failIf_cases s b p with e | e <;> rw [e]; simp
+@[simp] theorem failIf_slots (s b p) : (failIf s b p).slots = s.slots := by
+  rcases failIf_cases s b p with e | e <;> rw [e]; simp
+@[simp] theorem failIf_memos (s b p) : (failIf s b p).memos = s.memos := by
+  rcases failIf_cases s b p with e | e <;> rw [e]; simp
+@[simp] theorem failIf_inp (s b p) : (failIf s b p).inp = s.inp := by
+  rcases failIf_cases s b p with e | e <;> rw [e]; simp
+theorem failIf_false (s p) : failIf s false p = s := by simp [Model.CoreSpec.failIf]
+
+@[simp] theorem lockSlot_cur (s c sl) : (lockSlot s c sl).cur = s.cur := rfl
+@[simp] theorem lockSlot_lch (s c sl) : (lockSlot s c sl).lch = s.lch := rfl
+@[simp] theorem lockSlot_trace (s c sl) : (lockSlot s c sl).trace = s.trace := rfl
+@[simp] theorem lockSlot_smemos (s c sl) : (lockSlot s c sl).smemos = s.smemos := rfl
+@[simp] theorem lockSlot_memos (s c sl) : (lockSlot s c sl).memos = s.memos := rfl
+@[simp] theorem lockSlot_panic (s c sl) : (lockSlot s c sl).panic = s.panic := rfl
+@[simp] theorem lockSlot_inp (s c sl) : (lockSlot s c sl).inp = s.inp := rfl
+
+theorem touchMemos_cases (s c) : touchMemos s c = s ∨ ∃ sl, s.slots c = some sl ∧ touchMemos s c = lockSlot s c sl := by
+  unfold Model.CoreSpec.touchMemos
+  split
+  · rename_i sl h; exact Or.inr ⟨sl, h, rfl⟩
+  · exact Or.inl rfl
+
+@[simp] theorem touchMemos_cur (s c) : (touchMemos s c).cur = s.cur := by
+  rcases touchMemos_cases s c with e | ⟨sl, _, e⟩ <;> rw [e]; rfl
+@[simp] theorem touchMemos_lch (s c) : (touchMemos s c).lch = s.lch := by
+  rcases touchMemos_cases s c with e | ⟨sl, _, e⟩ <;> rw [e]; rfl
+@[simp] theorem touchMemos_trace (s c) : (touchMemos s c).trace = s.trace := by
+  rcases touchMemos_cases s c with e | ⟨sl, _, e⟩ <;> rw [e]; rfl
+@[simp] theorem touchMemos_smemos (s c) : (touchMemos s c).smemos = s.smemos := by
+  rcases touchMemos_cases s c with e | ⟨sl, _, e⟩ <;> rw [e]; rfl
+@[simp] theorem touchMemos_memos (s c) : (touchMemos s c).memos = s.memos := by
+  rcases touchMemos_cases s c with e | ⟨sl, _, e⟩ <;> rw [e]; rfl
+@[simp] theorem touchMemos_panic (s c) : (touchMemos s c).panic = s.panic := by
+  rcases touchMemos_cases s c with e | ⟨sl, _, e⟩ <;> rw [e]; rfl
+@[simp] theorem touchMemos_inp (s c) : (touchMemos s c).inp = s.inp := by
+  rcases touchMemos_cases s c with e | ⟨sl, _, e⟩ <;> rw [e]; rfl
+@[simp] theorem touchMemos_lc (s c d) : lc (touchMemos s c) d = lc s d := by simp [lc]
+
+theorem touchMemos_genOf (s c c') : genOf (touchMemos s c) c' = genOf s c' := by
+  rcases touchMemos_cases s c with e | ⟨sl, h, e⟩
+  · rw [e]
+  · rw [e]
+    by_cases hc : c' = c
+    · subst hc; simp [genOf, lockSlot, h]
+    · simp [genOf, lockSlot, setSlot_other _ _ _ hc]
+
+
+/-- the primitives a running body uses itself (it never emits an event) -/
+structure PrimRel0 (R : State → State → Prop) : Prop where
   refl : ∀ s, R s s
   trans : ∀ {s t u}, R s t → R t u → R s u
-  emit : ∀ s e, R s (emit s e)
   fail : ∀ s p, R s (fail s p)
-  setMemo : ∀ s q m, R s (setMemo s q m)
-  setSMemo : ∀ s c m, R s (setSMemo s c m)
+  /-- every memo the engine installs is verified in the current revision -/
+  setMemo : ∀ s q m, m.va = s.cur → R s (setMemo s q m)
+  setSMemo : ∀ s c m, (∀ sm, m = some sm → sm.va = s.cur) → R s (setSMemo s c m)
   setSlot : ∀ s c sl, R s (setSlot s c sl)
   gen : ∀ s n, R s { s with nextGen := n }
 
+structure PrimRel (R : State → State → Prop) : Prop extends PrimRel0 R where
+  emit : ∀ s e, R s (emit s e)
+
 variable {R : State → State → Prop}
 
-theorem PrimRel.failIf (h : PrimRel R) (s b p) : R s (failIf s b p) := by
+theorem PrimRel0.failIf (h : PrimRel0 R) (s b p) : R s (failIf s b p) := by
   unfold Model.CoreSpec.failIf
   split
   · exact h.fail s p
   · exact h.refl s
 
-theorem PrimRel.lockSlot (h : PrimRel R) (s c sl) : R s (lockSlot s c sl) := h.setSlot _ _ _
+theorem PrimRel0.lockSlot (h : PrimRel0 R) (s c sl) : R s (lockSlot s c sl) := h.setSlot _ _ _
 
-theorem PrimRel.touchMemos (h : PrimRel R) (s c) : R s (touchMemos s c) := by
+theorem PrimRel0.touchMemos (h : PrimRel0 R) (s c) : R s (touchMemos s c) := by
   unfold Model.CoreSpec.touchMemos
   split
   · exact h.lockSlot _ _ _
@@ -40,9 +166,9 @@ theorem PrimRel.touchMemos (h : PrimRel R) (s c) : R s (touchMemos s c) := by
 def RelF (R : State → State → Prop) (fe : FetchFn) : Prop := ∀ s q, R s (fe s q).1
 def RelM (R : State → State → Prop) (mc : McaFn) : Prop := ∀ s q rev, R s (mc s q rev).1
 
-theorem relF_noFetch (h : PrimRel R) : RelF R noFetch := fun s _ => h.refl s
+theorem relF_noFetch (h : PrimRel0 R) : RelF R noFetch := fun s _ => h.refl s
 
-theorem readDep_rel (h : PrimRel R) {fe fs} (hfe : RelF R fe) (hfs : RelF R fs) (s d) :
+theorem readDep_rel (h : PrimRel0 R) {fe fs} (hfe : RelF R fe) (hfs : RelF R fs) (s d) :
     R s (readDep fe fs s d).1 := by
   cases d with
   | inp i => exact h.refl s
@@ -58,33 +184,47 @@ theorem readDep_rel (h : PrimRel R) {fe fs} (hfe : RelF R fe) (hfs : RelF R fs) 
     · exact hfs s c
     · exact h.fail _ _
 
-theorem newStruct_rel (h : PrimRel R) (s self f idk v) : R s (newStruct s self f idk v).1 := by
+theorem newStruct_rel (h : PrimRel0 R) (s self f idk v) : R s (newStruct s self f idk v).1 := by
   unfold newStruct
   split
   · split
     · exact h.refl s
     · exact h.setSlot _ _ _
-  · exact h.trans (h.trans (h.setSlot s self _) (h.gen _ (s.nextGen + 1))) (h.setSMemo _ _ _)
+  · exact h.trans (h.trans (h.setSlot s self _) (h.gen _ (s.nextGen + 1))) (h.setSMemo _ _ _ (by intro sm e; cases e))
 
-theorem specifyAndRecord_rel (h : PrimRel R) (s self f c v) : R s (specifyAndRecord s self f c v).1 := by
+theorem installAssigned_rel (h : PrimRel0 R) (s f c v) : R s (installAssigned s f c v).1 := by
+  unfold installAssigned
+  exact h.trans (h.failIf _ _ _) (h.setSMemo _ _ _ (by intro sm e; cases e; simp [assignedMemo]))
+
+theorem specifyAndRecord_rel (h : PrimRel0 R) (s self f c v) : R s (specifyAndRecord s self f c v).1 := by
   unfold specifyAndRecord
-  have hinst : ∀ m, R s (setSMemo (Model.CoreSpec.failIf s
-      (backdate (s.smemos c) true ⟨v, none⟩ none f.ca f.dur s.cur).2 .backdateViolation) c m) :=
-    fun m => h.trans (h.failIf _ _ _) (h.setSMemo _ _ _)
   split
-  · exact h.fail _ _
-  · dsimp only
-    split
+  · split
     · split
       · split
         · exact h.refl s
         · split
           · exact h.fail _ _
-          · exact hinst _
-      · exact hinst _
-    · exact hinst _
+          · exact installAssigned_rel h _ _ _ _
+      · exact installAssigned_rel h _ _ _ _
+    · exact installAssigned_rel h _ _ _ _
+  · exact h.fail _ _
 
-theorem runBody_rel (h : PrimRel R) {fe fs} (hfe : RelF R fe) (hfs : RelF R fs) (self) :
+theorem identStep_rel (h : PrimRel0 R) (s c) : R s (identStep s c).1 := by
+  unfold identStep
+  split
+  · exact h.lockSlot _ _ _
+  · exact h.fail _ _
+
+theorem createStep_rel (h : PrimRel0 R) (s self f idk v) : R s (createStep s self f idk v).1 := by
+  unfold createStep
+  split
+  · split
+    · exact h.fail _ _
+    · exact newStruct_rel h _ _ _ _ _
+  · exact h.fail _ _
+
+theorem runBody_rel (h : PrimRel0 R) {fe fs} (hfe : RelF R fe) (hfs : RelF R fs) (self) :
     ∀ b s f, R s (runBody fe fs self b s f).1 := by
   intro b
   induction b with
@@ -96,24 +236,24 @@ theorem runBody_rel (h : PrimRel R) {fe fs} (hfe : RelF R fe) (hfs : RelF R fs) 
   | ident c k ih =>
     intro s f
     simp only [runBody]
-    split
-    · exact h.trans (h.lockSlot _ _ _) (ih _ _ _)
-    · exact h.trans (h.fail _ _) (ih _ _ _)
+    exact h.trans (identStep_rel h _ _) (ih _ _ _)
   | create idk v k ih =>
     intro s f
     simp only [runBody]
-    split
-    · exact h.trans (newStruct_rel h _ _ _ _ _) (ih _ _ _)
-    · exact h.trans (h.fail _ _) (ih _ _ _)
+    exact h.trans (createStep_rel h _ _ _ _ _) (ih _ _ _)
   | specify c v k ih =>
     intro s f
     simp only [runBody]
     exact h.trans (specifyAndRecord_rel h _ _ _ _ _) (ih _ _)
 
+theorem installSpec_rel (h : PrimRel R) (s c old f v) : R s (installSpec s c old f v).1 := by
+  unfold installSpec
+  exact h.trans (h.toPrimRel0.failIf _ _ _) (h.setSMemo _ _ _ (by intro sm e; cases e; simp))
+
 theorem executeSpec_rel (h : PrimRel R) (SB s c old) : R s (executeSpec SB s c old).1 := by
   unfold executeSpec
-  exact h.trans (h.trans (h.trans (h.emit _ _)
-    (runBody_rel h (relF_noFetch h) (relF_noFetch h) none _ _ _)) (h.failIf _ _ _)) (h.setSMemo _ _ _)
+  exact h.trans (h.trans (h.emit _ _)
+    (runBody_rel h.toPrimRel0 (relF_noFetch h.toPrimRel0) (relF_noFetch h.toPrimRel0) none _ _ _)) (installSpec_rel h _ _ _ _ _)
 
 theorem depChangedLeaf_rel (h : PrimRel R) (s d rev) : R s (depChangedLeaf s d rev).1 := by
   unfold depChangedLeaf
@@ -139,7 +279,7 @@ theorem deepEdgesLeaf_rel (h : PrimRel R) : ∀ obs s rev, R s (deepEdgesLeaf ob
 
 theorem fetchSpec_rel (h : PrimRel R) (SB s c) : R s (fetchSpec SB s c).1 := by
   unfold fetchSpec
-  refine h.trans (h.touchMemos s c) ?_
+  refine h.trans (h.toPrimRel0.touchMemos s c) ?_
   generalize touchMemos s c = t
   dsimp only
   split
@@ -147,18 +287,18 @@ theorem fetchSpec_rel (h : PrimRel R) (SB s c) : R s (fetchSpec SB s c).1 := by
   · split
     · exact h.refl _
     · split
-      · exact h.trans (h.emit _ _) (h.setSMemo _ _ _)
+      · exact h.trans (h.emit _ _) (h.setSMemo _ _ _ (by intro sm e; cases e; simp))
       · split
         · exact executeSpec_rel h _ _ _ _
         · split
-          · exact h.trans (deepEdgesLeaf_rel h _ _ _) (h.trans (h.emit _ _) (h.setSMemo _ _ _))
+          · exact h.trans (deepEdgesLeaf_rel h _ _ _) (h.trans (h.emit _ _) (h.setSMemo _ _ _ (by intro sm e; cases e; simp)))
           · exact h.trans (deepEdgesLeaf_rel h _ _ _) (executeSpec_rel h _ _ _ _)
 
 theorem relF_fetchSpec (h : PrimRel R) (SB) : RelF R (fetchSpec SB) := fun s c => fetchSpec_rel h SB s c
 
 theorem mcaSpec_rel (h : PrimRel R) (SB s c rev) : R s (mcaSpec SB s c rev).1 := by
   unfold mcaSpec
-  refine h.trans (h.touchMemos s c) ?_
+  refine h.trans (h.toPrimRel0.touchMemos s c) ?_
   generalize touchMemos s c = t
   dsimp only
   split
@@ -167,13 +307,13 @@ theorem mcaSpec_rel (h : PrimRel R) (SB s c rev) : R s (mcaSpec SB s c rev).1 :=
 
 theorem markValidatedOutput_rel (h : PrimRel R) (s e c) : R s (markValidatedOutput s e c) := by
   unfold markValidatedOutput
-  refine h.trans (h.touchMemos s c) ?_
+  refine h.trans (h.toPrimRel0.touchMemos s c) ?_
   generalize touchMemos s c = t
   dsimp only
   split
   · exact h.refl _
   · split
-    · exact h.trans (h.emit _ _) (h.setSMemo _ _ _)
+    · exact h.trans (h.emit _ _) (h.setSMemo _ _ _ (by intro sm e; cases e; simp))
     · exact h.fail _ _
 
 theorem markOutputsVerified_rel (h : PrimRel R) (e) : ∀ obs s, R s (markOutputsVerified e obs s) := by
@@ -222,11 +362,16 @@ theorem deleteEntity_rel (h : PrimRel R) (s q) : R s (deleteEntity s q) := by
   unfold deleteEntity
   split
   · exact h.refl s
-  · dsimp only
-    refine h.trans (h.trans (h.trans (h.emit _ _) (h.emit _ _)) (h.failIf _ _ _)) ?_
+  · rename_i sl _
+    dsimp only
+    have h2 : R s (Model.CoreSpec.failIf (Model.CoreSpec.emit (Model.CoreSpec.emit s (.staleT q q sl.gen)) (.discT q sl.gen))
+        (decide (sl.upd = s.cur)) .deleteLocked) :=
+      h.trans (h.trans (h.emit _ _) (h.emit _ _)) (h.toPrimRel0.failIf _ _ _)
+    refine h.trans h2 ?_
+    generalize Model.CoreSpec.failIf _ _ _ = t
     refine h.trans ?_ (h.setSlot _ _ _)
     split
-    · exact h.trans (h.emit _ _) (h.setSMemo _ _ _)
+    · exact h.trans (h.emit _ _) (h.setSMemo _ _ _ (by intro sm e; cases e))
     · exact h.refl _
 
 theorem diffOutputs_rel (h : PrimRel R) (s q old f g) : R s (diffOutputs s q old f g) := by
@@ -240,15 +385,35 @@ theorem diffOutputs_rel (h : PrimRel R) (s q old f g) : R s (diffOutputs s q old
   · exact h.trans h1 (h.emit _ _)
   · exact h1
 
+theorem deleteEntity_cur (s q) : (deleteEntity s q).cur = s.cur := by
+  unfold deleteEntity
+  split
+  · rfl
+  · dsimp only
+    split <;> simp
+
+theorem diffOutputs_cur (s q old f g) : (diffOutputs s q old f g).cur = s.cur := by
+  unfold diffOutputs
+  dsimp only
+  split <;> split <;> simp [deleteEntity_cur]
+
+theorem installNode_rel (h : PrimRel R) (s q old f v) : R s (installNode s q old f v).1 := by
+  unfold installNode
+  dsimp only
+  have h2 := h.toPrimRel0.failIf s (backdate old false v (hgenOf s v) f.ca f.dur s.cur).2 .backdateViolation
+  cases old with
+  | none => exact h.trans h2 (h.setMemo _ _ _ (by simp))
+  | some o =>
+    have h3 := diffOutputs_rel h (Model.CoreSpec.failIf s
+      (backdate (some o) false v (hgenOf s v) f.ca f.dur s.cur).2 .backdateViolation) q o f (genOf s q)
+    refine h.trans (h.trans h2 h3) (h.setMemo _ _ _ ?_)
+    rw [diffOutputs_cur]
+    simp
+
 theorem execute_rel (h : PrimRel R) {fe} (hfe : RelF R fe) (P s q old) : R s (execute fe P s q old).1 := by
   unfold execute
-  dsimp only
-  refine h.trans (h.trans (h.trans (h.emit s (.exec q))
-    (runBody_rel h hfe (relF_fetchSpec h P.spec) (some q) _ _ _)) (h.failIf _ _ _)) ?_
-  refine h.trans ?_ (h.setMemo _ _ _)
-  split
-  · exact diffOutputs_rel h _ _ _ _ _
-  · exact h.refl _
+  exact h.trans (h.trans (h.emit s (.exec q))
+    (runBody_rel h.toPrimRel0 hfe (relF_fetchSpec h P.spec) (some q) _ _ _)) (installNode_rel h _ _ _ _ _)
 
 theorem fetchStep_rel (h : PrimRel R) {fe mc} (hfe : RelF R fe) (hmc : RelM R mc) (P s q) :
     R s (fetchStep fe mc P s q).1 := by
@@ -258,10 +423,10 @@ theorem fetchStep_rel (h : PrimRel R) {fe mc} (hfe : RelF R fe) (hmc : RelM R mc
   · split
     · exact h.refl s
     · split
-      · exact h.trans (h.trans (h.emit _ _) (h.setMemo _ _ _)) (markOutputsVerified_rel h _ _ _)
+      · exact h.trans (h.trans (h.emit _ _) (h.setMemo _ _ _ (by simp))) (markOutputsVerified_rel h _ _ _)
       · dsimp only
         split
-        · exact h.trans (deepEdges_rel h hmc _ _ _ _ _) (h.trans (h.emit _ _) (h.setMemo _ _ _))
+        · exact h.trans (deepEdges_rel h hmc _ _ _ _ _) (h.trans (h.emit _ _) (h.setMemo _ _ _ (by simp)))
         · exact h.trans (deepEdges_rel h hmc _ _ _ _ _) (execute_rel h hfe _ _ _ _)
 
 theorem mcaStep_rel (h : PrimRel R) {fe mc} (hfe : RelF R fe) (hmc : RelM R mc) (P s q rev) :
@@ -298,7 +463,7 @@ theorem observe_rel (h : PrimRel R) (s v) : R s (observe s v) := by
   unfold observe
   split
   · split
-    · exact h.lockSlot _ _ _
+    · exact h.toPrimRel0.lockSlot _ _ _
     · exact h.fail _ _
   · exact h.refl s
 
@@ -310,19 +475,13 @@ theorem getOp_rel (h : PrimRel R) (P s q) : R s (getOp P s q).1 :=
 /-- the environment (revision, last-changed table, inputs, write log) is untouched by requests -/
 def SameEnv (s t : State) : Prop := t.cur = s.cur ∧ t.lch = s.lch ∧ t.inp = s.inp ∧ t.wlog = s.wlog
 
-theorem fail_cases (s p) : fail s p = s ∨ fail s p = { s with panic := some p } := by
-  unfold Model.CoreSpec.fail
-  split
-  · exact Or.inl rfl
-  · exact Or.inr rfl
-
 theorem primRel_sameEnv : PrimRel SameEnv where
   refl _ := ⟨rfl, rfl, rfl, rfl⟩
   trans h1 h2 := ⟨h2.1.trans h1.1, h2.2.1.trans h1.2.1, h2.2.2.1.trans h1.2.2.1, h2.2.2.2.trans h1.2.2.2⟩
   emit _ _ := ⟨rfl, rfl, rfl, rfl⟩
   fail s p := by rcases fail_cases s p with e | e <;> rw [e] <;> exact ⟨rfl, rfl, rfl, rfl⟩
-  setMemo _ _ _ := ⟨rfl, rfl, rfl, rfl⟩
-  setSMemo _ _ _ := ⟨rfl, rfl, rfl, rfl⟩
+  setMemo _ _ _ _ := ⟨rfl, rfl, rfl, rfl⟩
+  setSMemo _ _ _ _ := ⟨rfl, rfl, rfl, rfl⟩
   setSlot _ _ _ := ⟨rfl, rfl, rfl, rfl⟩
   gen _ _ := ⟨rfl, rfl, rfl, rfl⟩
 
@@ -334,8 +493,8 @@ theorem primRel_sticky : PrimRel Sticky where
   trans h1 h2 p h := h2 p (h1 p h)
   emit _ _ _ h := h
   fail s p' p h := by unfold Model.CoreSpec.fail; rw [h]; exact h
-  setMemo _ _ _ _ h := h
-  setSMemo _ _ _ _ h := h
+  setMemo _ _ _ _ _ h := h
+  setSMemo _ _ _ _ _ h := h
   setSlot _ _ _ _ h := h
   gen _ _ _ h := h
 
@@ -350,12 +509,21 @@ theorem primRel_traceExt : PrimRel TraceExt where
     exact ⟨l1 ++ l2, by rw [e2, e1, List.append_assoc]⟩
   emit _ e := ⟨[e], rfl⟩
   fail s p := by rcases fail_cases s p with e | e <;> rw [e] <;> exact ⟨[], by simp⟩
-  setMemo _ _ _ := ⟨[], by simp [Model.CoreSpec.setMemo]⟩
-  setSMemo _ _ _ := ⟨[], by simp [Model.CoreSpec.setSMemo]⟩
+  setMemo _ _ _ _ := ⟨[], by simp [Model.CoreSpec.setMemo]⟩
+  setSMemo _ _ _ _ := ⟨[], by simp [Model.CoreSpec.setSMemo]⟩
   setSlot _ _ _ := ⟨[], by simp [Model.CoreSpec.setSlot]⟩
   gen _ _ := ⟨[], by simp⟩
 
 /-- nothing is emitted -/
 def SameTrace (s t : State) : Prop := t.trace = s.trace
+
+theorem primRel0_sameTrace : PrimRel0 SameTrace where
+  refl _ := rfl
+  trans h1 h2 := h2.trans h1
+  fail s p := by rcases fail_cases s p with e | e <;> rw [e] <;> rfl
+  setMemo _ _ _ _ := rfl
+  setSMemo _ _ _ _ := rfl
+  setSlot _ _ _ := rfl
+  gen _ _ := rfl
 
 end SalsaVerif.Proofs.CoreSpec
